@@ -1151,6 +1151,29 @@ impl Described for Accent {
     }
 }
 
+// validate whose error type is the container's own error type (no foreign error type in between)
+src_text! { SELF_JUDGED_SRC,
+#[derive(Deserr, Debug)]
+#[deserr(error = Rec<0>, validate = probe::validate_rec_p::<9501, Self> -> Rec<0>)]
+pub struct SelfJudged {
+    pub n: u8,
+    #[deserr(default)]
+    pub s: Option<String>,
+}
+}
+impl ToModel for SelfJudged {
+    fn to_model(&self) -> M {
+        M::Struct { name: "SelfJudged".into(), fields: vec![("n".into(), self.n.to_model()), ("s".into(), self.s.to_model())] }
+    }
+}
+impl Described for SelfJudged {
+    fn ty() -> Ty {
+        let mut sf = fld("s", "s", <Option<String>>::ty());
+        sf.default = Some(M::None);
+        Ty::Struct(Arc::new(StructTy { name: "SelfJudged".into(), fields: vec![fld("n", "n", <u8>::ty()), sf], deny: Deny::No, validate: Some(9501) }))
+    }
+}
+
 pub fn hand_entries() -> Vec<(Entry, bool)> {
     // (entry, modelled by the reference interpreter)
     vec![
@@ -1165,6 +1188,8 @@ pub fn hand_entries() -> Vec<(Entry, bool)> {
         (Entry::generic::<Checked>("Checked", CHECKED_SRC, "hand"), true),
         (Entry::generic::<Holder>("Holder", HOLDER_SRC, "hand"), true),
         (Entry::rec_only::<Pinned>("Pinned", PINNED_SRC, "hand"), true),
+        (Entry::rec_only::<SelfJudged>("SelfJudged", SELF_JUDGED_SRC, "hand"), true),
+        (Entry::rec_only::<Vec<SelfJudged>>("Vec<SelfJudged>", "", "hand"), true),
         (Entry::generic::<Range>("Range", RANGE_SRC, "hand"), false),
         (Entry::generic::<Search>("Search", SEARCH_SRC, "hand"), false),
         (Entry::generic::<Vec<Strict>>("Vec<Strict>", "", "hand"), true),
